@@ -29,10 +29,14 @@ type c01Case struct {
 // ---- operand generators --------------------------------------------------------------------------
 
 // genContours returns 1..3 closed simple contours (disjoint, nested or overlapping as chance has it).
-func genContours(r *core.Rng, integer bool) [][]Pt {
+func genContours(r *core.Rng, integer bool) [][]Pt { return genContoursN(r, integer, 0, 3) }
+
+// genContoursN: orient 0 = every contour gets a random orientation, +1/-1 = all counter-clockwise /
+// all clockwise; at most maxN contours.
+func genContoursN(r *core.Rng, integer bool, orient, maxN int) [][]Pt {
 	n := 1
-	if r.Chance(0.5) {
-		n = r.IntRange(2, 3)
+	if maxN > 1 && r.Chance(0.5) {
+		n = r.IntRange(2, maxN)
 	}
 	var out [][]Pt
 	for len(out) < n {
@@ -69,9 +73,19 @@ func genContours(r *core.Rng, integer bool) [][]Pt {
 		if !polyIsSimple(pts) {
 			continue
 		}
+		if orient != 0 && (geom.Area(pts) > 0) != (orient > 0) {
+			reversePts(pts)
+		}
 		out = append(out, pts)
 	}
 	return out
+}
+
+func pickOrient(r *core.Rng) int {
+	if r.Bool() {
+		return 1
+	}
+	return -1
 }
 
 func contoursPath(cs [][]Pt) *canvas.Path {
@@ -82,7 +96,35 @@ func contoursPath(cs [][]Pt) *canvas.Path {
 	return p
 }
 
-func genC01Simple(r *core.Rng) any {
+func genC01Simple(r *core.Rng) any      { return genC01Plain(r, false, false) }
+func genC01SimpleMixed(r *core.Rng) any { return genC01Plain(r, false, true) }
+func genC01Grid(r *core.Rng) any        { return genC01Plain(r, true, false) }
+func genC01GridMixed(r *core.Rng) any   { return genC01Plain(r, true, true) }
+
+func genC01Plain(r *core.Rng, integer, mixed bool) any {
+	kind := "simple"
+	if integer {
+		kind = "grid"
+	}
+	var P, Q *canvas.Path
+	if mixed {
+		kind += "-mixed"
+		P, Q = contoursPath(genContoursN(r, integer, 0, 3)), contoursPath(genContoursN(r, integer, 0, 3))
+	} else {
+		P, Q = contoursPath(genContoursN(r, integer, pickOrient(r), 3)), contoursPath(genContoursN(r, integer, pickOrient(r), 3))
+	}
+	c := &c01Case{P: dataCopy(P), Q: dataCopy(Q), Kind: kind}
+	if r.Chance(0.25) {
+		t := 20
+		if integer {
+			t = 5
+		}
+		c.Sym = &symmetry{K: r.Intn(8), Tx: float64(r.IntRange(-t, t)), Ty: float64(r.IntRange(-t, t))}
+	}
+	return c
+}
+
+func genC01SimpleOld(r *core.Rng) any {
 	P := contoursPath(genContours(r, false))
 	Q := contoursPath(genContours(r, false))
 	c := &c01Case{P: dataCopy(P), Q: dataCopy(Q), Kind: "simple"}
@@ -92,7 +134,7 @@ func genC01Simple(r *core.Rng) any {
 	return c
 }
 
-func genC01Grid(r *core.Rng) any {
+func genC01GridOld(r *core.Rng) any {
 	P := contoursPath(genContours(r, true))
 	Q := contoursPath(genContours(r, true))
 	c := &c01Case{P: dataCopy(P), Q: dataCopy(Q), Kind: "grid"}
@@ -103,12 +145,19 @@ func genC01Grid(r *core.Rng) any {
 }
 
 // genC01Relations: coincident, reversed, sub-grid shifted, touching operands and zero-area spikes.
-func genC01Relations(r *core.Rng) any { return genC01Rel(r, core.PickI(r, []int{0, 1, 4, 5, 6})) }
-func genC01Shifted(r *core.Rng) any   { return genC01Rel(r, 2) }
+func genC01Relations(r *core.Rng) any { return genC01Rel(r, core.PickI(r, []int{0, 1, 4, 5, 6}), 1) }
+func genC01RelationsMulti(r *core.Rng) any {
+	return genC01Rel(r, core.PickI(r, []int{0, 1, 4, 5, 6}), 3)
+}
+func genC01Shifted(r *core.Rng) any      { return genC01Rel(r, 2, 1) }
+func genC01ShiftedMulti(r *core.Rng) any { return genC01Rel(r, 2, 3) }
 
-func genC01Rel(r *core.Rng, kind int) any {
+func genC01Rel(r *core.Rng, kind, maxN int) any {
 	integer := r.Bool()
-	cs := genContours(r, integer)
+	cs := genContoursN(r, integer, 0, maxN)
+	for maxN > 1 && len(cs) < 2 {
+		cs = genContoursN(r, integer, 0, maxN)
+	}
 	P := contoursPath(cs)
 	var qs [][]Pt
 	switch kind {
@@ -180,7 +229,11 @@ func genC01Rel(r *core.Rng, kind int) any {
 	if r.Bool() {
 		P, Q = Q, P
 	}
-	return &c01Case{P: dataCopy(P), Q: dataCopy(Q), Kind: "relations:" + []string{"equal", "reversed", "shifted", "shifted", "shared-vertex", "shared-edge", "spike"}[kind]}
+	multi := ""
+	if maxN > 1 {
+		multi = "-multi"
+	}
+	return &c01Case{P: dataCopy(P), Q: dataCopy(Q), Kind: "relations" + multi + ":" + []string{"equal", "reversed", "shifted", "shifted", "shared-vertex", "shared-edge", "spike"}[kind]}
 }
 
 // curvedContour returns a closed curved contour that is simple by construction.
@@ -556,13 +609,18 @@ func init() {
 			"all five operations plus the commuted And/Or/Xor, on a quarter of the flat cases also on a random grid symmetry image; 64 sample points per case, decided when farther than the margin from every input boundary; " +
 			"non-trivial = at least 8 decidable points and overlapping operand boxes; distinct = distinct case hash",
 		Strata: []core.Stratum{
-			{Name: "simple", Quick: 3000, Thorough: 120000, Gen: genC01Simple},
-			{Name: "grid", Quick: 3000, Thorough: 120000, Gen: genC01Grid},
-			{Name: "relations", Quick: 2000, Thorough: 60000, Gen: genC01Relations},
-			{Name: "shifted", Quick: 1000, Thorough: 30000, Gen: genC01Shifted},
+			{Name: "simple", Quick: 2500, Thorough: 100000, Gen: genC01Simple, Note: "1-3 simple float contours per operand, one orientation per operand"},
+			{Name: "simple-mixed", Quick: 2500, Thorough: 100000, Gen: genC01SimpleMixed, Note: "contours of both orientations within an operand (cancelling regions, holes)"},
+			{Name: "grid", Quick: 2500, Thorough: 100000, Gen: genC01Grid, Note: "integer grid 0..8: shared vertices, collinear overlapping and vertical edges"},
+			{Name: "grid-mixed", Quick: 2000, Thorough: 10000, Gen: genC01GridMixed, Note: "integer grid with mixed orientations; residual library failure rate about 1e-6 per case (F-C01-grid-mixed), therefore few cases"},
+			{Name: "relations", Quick: 2000, Thorough: 80000, Gen: genC01Relations, Note: "Q = P, Q = reverse(P), shared vertex, shared edge, zero-area spike; single-contour P"},
 			{Name: "curved", Quick: 600, Thorough: 20000, Gen: genC01Curved},
-			{Name: "selfx", Quick: 1500, Thorough: 60000, Gen: genC01SelfX},
-			{Name: "selfx-grid", Quick: 500, Thorough: 20000, Gen: genC01SelfXGrid},
+			{Name: "selfx", Quick: 1500, Thorough: 60000, Gen: genC01SelfX, Note: "bow-ties, star polygons {n/k} with gcd 1, random float polygons"},
+			// demoted (DESIGN 4.5): genuine library failures at 1e-5..3e-4 per case; witnesses in known_findings.json
+			{Name: "shifted", Quick: 1000, Thorough: 30000, Gen: genC01Shifted, WitnessOnly: true, Note: "Q = P + sub-grid shift, single contour: 1e-5 wrong areas"},
+			{Name: "shifted-multi", Quick: 1000, Thorough: 30000, Gen: genC01ShiftedMulti, WitnessOnly: true, Note: "Q = P + sub-grid shift, overlapping contours: 3e-4 wrong regions / And,Or panics"},
+			{Name: "relations-multi", Quick: 1500, Thorough: 60000, Gen: genC01RelationsMulti, WitnessOnly: true, Note: "coincident/touching operands made of overlapping contours: 5e-5 wrong regions / And panics"},
+			{Name: "selfx-grid", Quick: 500, Thorough: 20000, Gen: genC01SelfXGrid, WitnessOnly: true, Note: "self-crossing integer-grid polygons: 6e-5 wrong regions / Or panics"},
 		},
 		NewCase:  func() any { return &c01Case{} },
 		Corpus:   c01Corpus,
